@@ -16,7 +16,10 @@ def one(name):
             return name, "PATCH-FAILED", p.stdout[-200:]
         pid = name.split("-")[0]
         env = dict(os.environ, REX_REPO=d, VERIF_EVIDENCE_DIR=os.path.join(d, "ev"), VERIF_REPLAY_DIR=os.path.join(d, "rp"))
-        r = subprocess.run([os.path.join(VERIF, "check"), pid], capture_output=True, text=True, env=env, timeout=3000)
+        try:
+            r = subprocess.run([os.path.join(VERIF, "check"), pid], capture_output=True, text=True, env=env, timeout=6000)
+        except subprocess.TimeoutExpired:
+            return name, "TIMEOUT", "check did not finish within 6000 s (machine overloaded?)"
         viol = [l for l in r.stdout.splitlines() if l.startswith("VIOLATION")]
         noinput = sum(1 for l in viol if l.endswith("no-failing-input-found"))
         status = "DETECTED" if r.returncode == 1 and viol else f"MISSED(exit={r.returncode})"
